@@ -6,11 +6,11 @@ CONSTANTS
   PVals = {0, 1, 2, 3, 4, 5}
   LVals = {0, 1, 2, 3, 4}
   ForbSets = {{}}
-  PV = {1, 3}
+  PV = {2}
   MinV = {1, 3}
   MaxV = {1}
   Pairs = {13, 31}
-  APairs = {31}
+  APairs = {}
   Depth = 7
 CONSTRAINT Bound
 INVARIANT Emit1
